@@ -426,5 +426,5 @@ def run(ctx):
     ocfg.update({"ops": {"ordered_window": 8, "order_rows": 4, "window": 3, "project": 3, "natural_join": 4, "extend": 3}, "final_order": 0.5, "extend_then_ordered_window_prob": 0.3})
     ctx.campaign("ordinary_names", wrapped_cases(ocfg, ordinary=True), oracle, max_examples=ctx.n(200, 24000))
     jcfg = dict(cfg)
-    jcfg.update({"ops": {"natural_join": 10, "extend": 2, "select_rows": 1, "project": 1, "window": 0, "ordered_window": 0, "concat_rows": 1, "convert_records": 0}, "max_nodes": 4, "n_tables": (2, 2), "final_order": 0.1, "force_cols": ["g"], "force_cols_nullable": True, "nullable_join_key_prob": 0.9, "max_rows": 4})
-    ctx.campaign("join_scratch", join_scratch_cases(jcfg), oracle, max_examples=ctx.n(600, 24000))
+    jcfg.update({"ops": {"natural_join": 10, "extend": 2, "select_rows": 1, "project": 1, "window": 0, "ordered_window": 0, "concat_rows": 1, "convert_records": 0}, "max_nodes": 4, "n_tables": (2, 2), "final_order": 0.1, "force_cols": ["g"], "force_cols_nullable": True, "nullable_join_key_prob": 0.9, "max_rows": 4, "null_rate": 0.4})
+    ctx.campaign("join_scratch", join_scratch_cases(jcfg), oracle, max_examples=ctx.n(800, 24000))
